@@ -703,3 +703,5 @@ MUTANTS = [
     ('tt3-nbw-offset', 'nfc.tag.tt3', "attribute_data[2] = attributes['nbw']", "attribute_data[2] = attributes['nbr']", 'C01-R5'),
     ('tt3-ln-field', 'nfc.tag.tt3', "attribute_data[11:14] = pack('>I', attributes['ln'])[1:4]", "attribute_data[11:14] = pack('>I', attributes['ln'])[0:3]", 'C01-R5'),
 ]
+
+EXPLANATION += ' Round 5: the Type 1 / 2 memory image classes folded as objects (init, byte and slice stores across unit boundaries, flush) against a modelled tag that refuses what the real command refuses; the Type 1 / 2 TLV writers folded over layouts with reserved bytes in, up to and across the end of the data area; Type 4 capacity bounded by the offset READ / UPDATE BINARY as built can carry, reader folded with content; Type 3 commands within the frame budget.'
